@@ -25,8 +25,7 @@ CLAUSES = {"LockOwned", "AsExpected", "Converged", "NoLoss", "NoArtefacts", "Rea
 def histories(ctx, n, seed, count):
     """create-only histories over both sides with disjoint footprints (TLC-generated, then filtered)"""
     cases = sc.generate(ctx, "thr%d" % n, [1, 2], n, ["I"], "empty", filt="disjoint")
-    import random as _r
-    _r.Random(seed).shuffle(cases)
+    cases, _ = sc.slice_cases(cases, 4000, key="thr")
     out = []
     for c in cases:
         ops = [t for t in c["tokens"] if t[0] == "U"]
@@ -93,4 +92,4 @@ def replay(ctx, rep):
 
 
 if __name__ == "__main__":
-    main("C15", run, replay)
+    main("C15", run, replay, level="exploration")
